@@ -192,6 +192,8 @@ fn expr(e: &Expr) -> S {
         Expr::ForLoop(f) => n("for", vec![pat(&f.pat), expr(&f.expr), block(&f.body)]),
         Expr::MethodCall(m) => {
             let mut kids = vec![a(m.method.to_string())];
+            let lc = m.method.span().start();
+            kids.push(n("pos", vec![a(lc.line.to_string()), a((lc.column + 1).to_string())]));
             if let Some(t) = &m.turbofish {
                 kids.push(n("turbofish", vec![a(toks(t))]));
             }
@@ -256,7 +258,7 @@ fn is_test_cfg(attrs: &[syn::Attribute]) -> bool {
     attrs.iter().any(|at| {
         at.path().is_ident("cfg") && {
             let t = toks(&at.meta).replace(' ', "");
-            t == "cfg(test)"
+            t == "cfg(test)" || t == "cfg(arc_swap_verif)"
         }
     })
 }
@@ -527,7 +529,11 @@ fn emit(s: &S, out: &mut String, depth: usize) {
             out.push_str("(nd ");
             out.push_str(&lean_str(&tag));
             out.push_str(" [");
-            for (k, x) in v[1..].iter().enumerate() {
+            let kids: Vec<&S> = v[1..]
+                .iter()
+                .filter(|x| !matches!(x, S::L(w) if matches!(&w[0], S::A(t) if t == "pos")))
+                .collect();
+            for (k, x) in kids.into_iter().enumerate() {
                 if k > 0 {
                     out.push_str(", ");
                 }
@@ -540,6 +546,70 @@ fn emit(s: &S, out: &mut String, depth: usize) {
                 emit(x, out, depth + 1);
             }
             out.push_str("])");
+        }
+    }
+}
+
+const ATOMIC_OPS: &[&str] = &[
+    "load", "store", "swap", "compare_exchange", "compare_exchange_weak", "fetch_add", "fetch_sub",
+    "fetch_or", "fetch_and", "fetch_update", "fetch_max", "fetch_min", "fetch_xor", "fetch_nand",
+];
+const ORDS: &[&str] = &["SeqCst", "AcqRel", "Acquire", "Release", "Relaxed"];
+
+fn tag_of(s: &S) -> Option<&str> {
+    match s {
+        S::L(v) => match &v[0] {
+            S::A(t) => Some(t.as_str()),
+            _ => None,
+        },
+        _ => None,
+    }
+}
+
+/// Pre-order walk mirroring `Extract.sites` on the Lean side: an `mcall` whose method is an atomic
+/// operation and which has at least one ordering argument. Pushes (line, col, op).
+fn walk_sites(s: &S, out: &mut Vec<(String, String, String)>) {
+    if let S::L(v) = s {
+        if tag_of(s) == Some("mcall") {
+            let name = match &v[1] {
+                S::A(x) => x.clone(),
+                _ => String::new(),
+            };
+            let mut pos = None;
+            let mut has_ord = false;
+            let mut seen_recv = false;
+            for k in &v[2..] {
+                match tag_of(k) {
+                    Some("pos") => {
+                        if let S::L(p) = k {
+                            if let (S::A(l), S::A(c)) = (&p[1], &p[2]) {
+                                pos = Some((l.clone(), c.clone()));
+                            }
+                        }
+                    }
+                    Some("turbofish") => {}
+                    _ => {
+                        if !seen_recv {
+                            seen_recv = true; // the receiver is not an argument
+                        } else if tag_of(k) == Some("path") {
+                            if let S::L(p) = k {
+                                if let S::A(t) = &p[1] {
+                                    if ORDS.iter().any(|o| t.ends_with(o)) {
+                                        has_ord = true;
+                                    }
+                                }
+                            }
+                        }
+                    }
+                }
+            }
+            if has_ord && ATOMIC_OPS.contains(&name.as_str()) {
+                let (l, c) = pos.unwrap_or_default();
+                out.push((l, c, name));
+            }
+        }
+        for k in &v[1..] {
+            walk_sites(k, out);
         }
     }
 }
@@ -570,9 +640,10 @@ fn main() {
     let mut index = String::new();
     let mut mods = vec![];
     let mut failures = vec![];
+    let mut site_rows: Vec<String> = vec![];
     for f in &files {
         let rel = f.strip_prefix(&src).unwrap().to_string_lossy().to_string();
-        if rel.starts_with("docs/") {
+        if rel.starts_with("docs/") || rel == "verif.rs" {
             continue; // documentation-only modules
         }
         let text = std::fs::read_to_string(f).unwrap();
@@ -591,6 +662,24 @@ fn main() {
                 let items: Vec<S> = file.items.iter().flat_map(|i| item(i, "")).collect();
                 writeln!(body, "import ArcSwapModel.Sexp\n/-! GENERATED by rs2lean from src/{} — do not edit. -/", rel).unwrap();
                 writeln!(body, "namespace Generated.{}\nopen S\nset_option maxRecDepth 100000", modname).unwrap();
+                for it in &items {
+                    if tag_of(it) == Some("fn") {
+                        if let S::L(v) = it {
+                            let fname = match &v[1] {
+                                S::A(x) => x.clone(),
+                                _ => String::new(),
+                            };
+                            let mut ss = vec![];
+                            walk_sites(&v[4], &mut ss);
+                            for (k, (l, c, op)) in ss.into_iter().enumerate() {
+                                site_rows.push(format!(
+                                    "{{\"file\":{},\"line\":{},\"col\":{},\"fn\":{},\"idx\":{},\"op\":{}}}",
+                                    lean_str(&rel), l, c, lean_str(&fname), k, lean_str(&op)
+                                ));
+                            }
+                        }
+                    }
+                }
                 let mut names = vec![];
                 for (k, it) in items.iter().enumerate() {
                     let mut s = String::new();
@@ -639,9 +728,10 @@ fn main() {
     for e in std::fs::read_dir(&out).unwrap() {
         let p = e.unwrap().path();
         let stem = p.file_stem().unwrap().to_string_lossy().to_string();
-        if stem != "All" && !mods.iter().any(|(m, _)| *m == stem) {
+        if stem != "All" && stem != "sites" && !mods.iter().any(|(m, _)| *m == stem) {
             let _ = std::fs::remove_file(p);
         }
     }
+    std::fs::write(out.join("sites.json"), format!("[\n{}\n]\n", site_rows.join(",\n"))).unwrap();
     println!("rs2lean: {} files, {} parse failures", mods.len(), failures.len());
 }
